@@ -33,7 +33,7 @@ inductive Rec
   | receive (t : Nat) (disp : List Nat)
   | interrupt (disp : List Nat)
   | handled (k : Nat)
-  | backendRaise (k : Nat) (caught : Bool := true)   -- caught: by `_handler_loop`'s `except Exception` (RunOutcome.FaultClass.isException)
+  | backendRaise (k : Nat) (caught : Bool := true)   -- caught: by `_handler_loop` (`(RunOutcome.pendingAfter c _).isSome`: every class since fix D42)
   | handlerExit
 deriving Repr, Inhabited
 
